@@ -32,7 +32,7 @@ func NewRegexpMatcher(include, exclude []*regexp.Regexp) (*RegexpMatcher, error)
 			if i > 0 {
 				regex.WriteString("|")
 			}
-			regex.WriteString(rules[i].String())
+			regex.WriteString("(?:" + rules[i].String() + ")")
 		}
 		if s := regex.String(); s != "" {
 			return regexp.MustCompile(s)
